@@ -2,7 +2,9 @@
    transcribed function by function from the code AFTER the repairs
      622a4d5 (decodeString: 2+len computed in int),
      486e516 (decodeError: errors.New instead of fmt.Errorf(text)),
-     f56c5c2 (decodeBinary: 4+len computed in int).
+     f56c5c2 (decodeBinary: 4+len computed in int),
+     d8d802b (Marshaler encoder: length written through b.B after MarshalEDF, not through a
+              slice taken before it).
    Definitions only (no proofs).  [decode] is a standalone total function on arbitrary byte
    lists (reused by C16).
 
@@ -17,8 +19,12 @@
    * the registry ([o_reg]) stands for the global encoders/decoders tables filled by
      RegisterTypeOf: type name "#pkg/Name" -> definition.
    * options.Cache (memoisation of encoders/decoders) is semantically transparent and not modelled.
-   * not modelled: edf.Marshaler / encoding.BinaryMarshaler types (exercised by the harness
-     monitor only), pointer types (rejected by the code). *)
+   * edf.Marshaler / encoding.BinaryMarshaler types: the registry entry [RMarsh m u] carries the
+     user's two methods as functions on an abstract state (a byte string): [m] = MarshalEDF /
+     MarshalBinary (state -> payload), [u] = UnmarshalEDF / UnmarshalBinary (payload -> state);
+     a value is [VMarsh state].  Nothing is assumed about [m] and [u] in this file; the round-trip
+     theorems take "u inverts m" as the explicit hypothesis [marsh_inv].
+   * not modelled: pointer types (rejected by the code). *)
 From Ergo Require Import Common.Base Common.Bytes Common.Codec.
 Local Open Scope N_scope.
 
@@ -41,6 +47,7 @@ Definition maxString := 65535.          (* math.MaxUint16 *)
 Definition maxError := 32767.           (* math.MaxInt16; error cache ids > 32767, 65535 = nil *)
 Definition maxBinary := 4294967295.     (* math.MaxUint32 *)
 Definition maxRegName := 4095.          (* register.go: reg cache ids > 4095 *)
+Definition maxMarsh := 4294967294.      (* register.go: lenBinary > math.MaxUint32-1 -> ErrBinaryTooLong *)
 
 Inductive prim :=
 | PBool | PInt | PInt8 | PInt16 | PInt32 | PInt64 | PUint | PUint8 | PUint16 | PUint32 | PUint64
@@ -61,7 +68,9 @@ Inductive rdef :=
 | RStruct (fs : list ty)
 | RSlice (t : ty)
 | RArray (n : N) (t : ty)
-| RMap (k v : ty).
+| RMap (k v : ty)
+| RMarsh (m u : bytes -> res bytes).   (* edf.Marshaler / encoding.BinaryMarshaler type: the user's
+                                          Marshal (state -> payload) and Unmarshal (payload -> state) *)
 
 Inductive val :=
 | VBool (b : bool)
@@ -78,7 +87,8 @@ Inductive val :=
 | VAny (t : ty) (v : val)                        (* interface holding a value of dynamic type t *)
 | VNil                                           (* nil slice / nil map *)
 | VList (l : list val)                           (* slice, array, struct fields *)
-| VMap (l : list (val * val)).                   (* map entries in wire order *)
+| VMap (l : list (val * val))                    (* map entries in wire order *)
+| VMarsh (x : bytes).                            (* value of a Marshaler type, by its abstract state *)
 
 Record opts := mk_opts {
   o_fuel : nat;
@@ -433,6 +443,16 @@ Fixpoint enc_val (f : nat) (o : opts) (et : bool) (t : ty) (v : val) {struct f} 
                       Ok (h ++ edtReg :: put_be 4 (vlen l) ++ b)
           | _ => Err EType
           end
+        | RMarsh m _ =>
+          (* register.go fenc (case Marshaler): b.Extend(4); l := b.Len(); v.MarshalEDF(b);
+             lenBinary := b.Len() - l; if lenBinary > MaxUint32-1 { return ErrBinaryTooLong };
+             PutUint32(b.B[l-4:l], lenBinary)          -- and (case encoding.BinaryMarshaler):
+             buf := b.Extend(4); bin, err := v.MarshalBinary(); same check; PutUint32(buf, len(bin));
+             b.Append(bin).  An error of the user's method is Encode's error. *)
+          match v with
+          | VMarsh x => p <- m x ;; if maxMarsh <? blen p then Err ETooLong else Ok (h ++ put_lp 4 p)
+          | _ => Err EType
+          end
         end
       end
     end
@@ -576,6 +596,11 @@ Fixpoint dec_val (f : nat) (o : opts) (t : ty) (b : bytes) {struct f} : res (val
         | RSlice t' => dec_seq edtReg (dec_val f' o t') b
         | RArray n t' => dec_arr n (dec_val f' o t') b
         | RMap tk tv => dec_mapb edtReg (dec_val f' o tk) (dec_val f' o tv) b
+        | RMarsh _ u =>
+          (* register.go fdec: l := int(Uint32(packet)); if len(packet) < l+4 -> errDecodeEOD;
+             v.UnmarshalEDF(packet[4:l+4]) (its error is Decode's error); packet[l+4:].  The sum is
+             computed in int (64 bit; /repo does not build for 32-bit targets: lib/compress.go). *)
+          '(p, r) <- get_lp 4 64 b ;; x <- u p ;; Ok (VMarsh x, r)
         end
       end
     end
@@ -735,7 +760,7 @@ Fixpoint guard (f : nat) (o : opts) (t : ty) (v : val) {struct f} : bool :=
       end
     | TReg name =>
       match lookup_reg o name with
-      | Some (RPrim _) => true
+      | Some (RPrim _) | Some (RMarsh _ _) => true
       | Some (RStruct fs) => match v with VList l => guard_fields (guard f' o) fs l | _ => true end
       | Some (RSlice t') =>
         match v with VList l => (vlen l <? 4294967296) && (is_nil l || minw_pos f' o t') && forallb (guard f' o t') l | _ => true end
@@ -753,3 +778,41 @@ Fixpoint guard (f : nat) (o : opts) (t : ty) (v : val) {struct f} : bool :=
   end.
 
 Definition supported (o : opts) (t : ty) (v : val) : bool := desc_ok o t && guard (o_fuel o) o t v.
+
+(* ---- Marshaler types: the hypothesis of the round trip, and the harness's own marshalers ------------
+   "the user's Unmarshal inverts the user's Marshal", for every Marshaler type of the registry *)
+Definition marsh_inv (o : opts) : Prop :=
+  forall name m u x p, lookup_reg o name = Some (RMarsh m u) -> m x = Ok p -> u p = Ok x.
+
+Definition is_marsh (d : rdef) : bool := match d with RMarsh _ _ => true | _ => false end.
+
+(* the states of the marshaler values inside a value (for the sampled form of [marsh_inv]) *)
+Fixpoint marsh_states (v : val) : list bytes :=
+  match v with
+  | VMarsh x => [x]
+  | VAny _ v' => marsh_states v'
+  | VList l => flat_map marsh_states l
+  | VMap l => flat_map (fun kv => marsh_states (fst kv) ++ marsh_states (snd kv)) l
+  | _ => []
+  end.
+
+(* [marsh_inv] evaluated on the states that occur in a value *)
+Definition marsh_inv_on (o : opts) (v : val) : bool :=
+  forallb (fun e =>
+    match snd e with
+    | RMarsh m u =>
+      forallb (fun x => match m x with
+                        | Ok p => match u p with Ok x' => bytes_eqb x' x | Err _ => false end
+                        | Err _ => true
+                        end) (marsh_states v)
+    | _ => true
+    end) (o_reg o).
+
+(* go/harness/cmd/edf/types.go
+   HMar (edf.Marshaler): state = Data; MarshalEDF writes every byte xor 0x5a, UnmarshalEDF undoes it
+   HBin (encoding.BinaryMarshaler): state = S; MarshalBinary returns S reversed, UnmarshalBinary
+   reverses again *)
+Definition mar_xor (x : bytes) : res bytes := Ok (map (N.lxor 90) x).
+Definition unmar_xor (p : bytes) : res bytes := Ok (map (N.lxor 90) p).
+Definition mar_rev (x : bytes) : res bytes := Ok (rev_append x []).
+Definition unmar_rev (p : bytes) : res bytes := Ok (rev_append p []).
